@@ -338,6 +338,76 @@ theorem isValidChannelID_format (s : List Char) (h : isValidChannelID s = true) 
       exact ⟨h.1.1.1, h.1.1.2, h.1.2, h.2⟩
   · simp at h
 
+/-! ## the NODE's fee rule: the checker as `app.go` wires it from the configuration
+
+`Gen.C20.wiredCheckTxFeees cfgTypes cfgMaxGas` is `setAnteHandler` translated statement by statement: how
+`bypass-min-fee.msg-types` and `bypass-min-fee.msg-max-gas-usage` (absent = `[]` / `0`) reach `NewCheckTxFeees`.  Any
+defaulting or rewriting of the configured values in app.go appears in that definition and breaks these theorems. -/
+section Node
+
+/-- the app hands the configured values to the checker unchanged -/
+theorem wired_checker_is_config (cfgTypes : List String) (cfgMaxGas : Nat) :
+    wiredCheckTxFeees cfgTypes cfgMaxGas = ⟨cfgTypes, cfgMaxGas⟩ := rfl
+
+/-- **the node's bypass rule in terms of its configuration** -/
+theorem node_bypass_iff (cfgTypes : List String) (cfgMaxGas : Nat) (msgs : List String) (gas : Nat) :
+    isByPassMinFee (wiredCheckTxFeees cfgTypes cfgMaxGas) msgs gas = true ↔
+      msgs ≠ [] ∧ (∀ m ∈ msgs, m ∈ cfgTypes) ∧ gas ≤ (msgs.length * cfgMaxGas) % 2 ^ 64 := by
+  rw [wired_checker_is_config]; exact bypass_iff _ msgs gas
+
+/-- the property's wording for the node: a transaction skips the minimum price ONLY IF every message type is configured as
+fee-exempt and the gas limit is within the configured per-message allowance -/
+theorem node_bypass_only_if (cfgTypes : List String) (cfgMaxGas : Nat) (msgs : List String) (gas : Nat)
+    (h : isByPassMinFee (wiredCheckTxFeees cfgTypes cfgMaxGas) msgs gas = true) :
+    (∀ m ∈ msgs, m ∈ cfgTypes) ∧ gas ≤ msgs.length * cfgMaxGas := by
+  rw [wired_checker_is_config] at h; exact bypass_only_if _ msgs gas h
+
+/-- an allowance of 0 — or an absent key, which reads as 0 — gives NO free gas: no transaction with a positive gas limit
+bypasses, whatever its messages -/
+theorem node_zero_allowance_exempts_nothing (cfgTypes : List String) (msgs : List String) (gas : Nat) (hg : 0 < gas) :
+    isByPassMinFee (wiredCheckTxFeees cfgTypes 0) msgs gas = false := by
+  cases h : isByPassMinFee (wiredCheckTxFeees cfgTypes 0) msgs gas with
+  | false => rfl
+  | true =>
+    have := (node_bypass_only_if cfgTypes 0 msgs gas h).2
+    omega
+
+/-- no exempt types configured (or the key absent): nothing bypasses -/
+theorem node_no_exempt_types_exempts_nothing (cfgMaxGas : Nat) (msgs : List String) (gas : Nat) :
+    isByPassMinFee (wiredCheckTxFeees [] cfgMaxGas) msgs gas = false := by
+  cases h : isByPassMinFee (wiredCheckTxFeees [] cfgMaxGas) msgs gas with
+  | false => rfl
+  | true =>
+    obtain ⟨hne, hall, _⟩ := (node_bypass_iff [] cfgMaxGas msgs gas).1 h
+    cases msgs with
+    | nil => exact absurd rfl hne
+    | cons m rest => exact absurd (hall m (by simp)) (by simp)
+
+/-- exact CheckTx admission rule of the node, for all inputs, in terms of its configuration -/
+theorem node_checktx_accept_iff (cfgTypes : List String) (cfgMaxGas : Nat) (msgs : List String) (gas : Nat) (fee : List Coin)
+    (prices : List DecCoin) :
+    checkTxFee (wiredCheckTxFeees cfgTypes cfgMaxGas) true true msgs gas fee prices = .accept ↔
+      ¬ (int64OfU64 gas = 0 ∧ fee ≠ []) ∧
+      ((msgs ≠ [] ∧ (∀ m ∈ msgs, m ∈ cfgTypes) ∧ gas ≤ (msgs.length * cfgMaxGas) % 2 ^ 64) ∨ decCoinsIsZero prices = true ∨
+        ((reqFees prices gas).any newCoinPanics = false ∧ isAnyGTE fee (reqFees prices gas) = true)) := by
+  rw [checktx_accept_iff, node_bypass_iff]
+
+/-- the property's last sentence for the node: below the minimum price and not within the configured exemption ⇒ refused -/
+theorem node_below_min_refused (cfgTypes : List String) (cfgMaxGas : Nat) (msgs : List String) (gas : Nat) (fee : List Coin)
+    (prices : List DecCoin) (hg0 : 0 < gas) (hg : gas < 2 ^ 63) (hp : ∀ p ∈ prices, 0 ≤ p.amount)
+    (hnb : ¬ (msgs ≠ [] ∧ (∀ m ∈ msgs, m ∈ cfgTypes) ∧ gas ≤ (msgs.length * cfgMaxGas) % 2 ^ 64))
+    (hmin : ∃ p ∈ prices, p.amount ≠ 0) (hlow : ∀ c ∈ fee, ¬ covers prices gas c) :
+    checkTxFee (wiredCheckTxFeees cfgTypes cfgMaxGas) true true msgs gas fee prices = .refuse := by
+  apply below_min_refused _ msgs gas fee prices hg0 hg hp _ hmin hlow
+  cases h : isByPassMinFee (wiredCheckTxFeees cfgTypes cfgMaxGas) msgs gas with
+  | false => rfl
+  | true => exact absurd ((node_bypass_iff cfgTypes cfgMaxGas msgs gas).1 h) hnb
+
+example : checkTxFee (wiredCheckTxFeees ["/a"] 0) true true ["/a"] 150000 [] [⟨"FX", 2500000000000000000⟩] = .refuse := by decide
+example : checkTxFee (wiredCheckTxFeees ["/a"] 300000) true true ["/a"] 150000 [] [⟨"FX", 2500000000000000000⟩] = .accept := by decide
+
+end Node
+
 /-! ## wiring read off the AST: ante chain order, routing, node configuration, `ValidateModuleName`, `Byte32ToString` -/
 section Wiring
 
